@@ -18,7 +18,13 @@ import (
 
 type Rng struct{ s uint64 }
 
-func NewRng(seed uint64) *Rng { return &Rng{s: seed*0x9E3779B97F4A7C15 + 0x1234567} }
+func NewRng(seed uint64) *Rng {
+	// scramble the seed so that neighbouring seeds give unrelated streams
+	z := seed + 0x632BE59BD9B4E019
+	z = (z ^ (z >> 30)) * 0xBF58476D1CE4E5B9
+	z = (z ^ (z >> 27)) * 0x94D049BB133111EB
+	return &Rng{s: z ^ (z >> 31)}
+}
 func (r *Rng) U64() uint64 {
 	r.s += 0x9E3779B97F4A7C15
 	z := r.s
@@ -109,7 +115,7 @@ func (r *Result) Violate(sig, what string, replay interface{}) {
 			return
 		}
 	}
-	if len(r.Violations) < 200 {
+	if len(r.Violations) < 2000 {
 		r.Violations = append(r.Violations, Violation{Sig: sig, What: what, Replay: replay})
 	}
 }
@@ -249,3 +255,5 @@ func (c *Ctx) Model(req map[string]interface{}, into interface{}) error {
 	}
 	return d.Call(req, into)
 }
+
+func jsonUnmarshalString(s string, into interface{}) error { return json.Unmarshal([]byte(s), into) }
